@@ -89,6 +89,13 @@ CLAIMED.update({
    note="the engine-exit versus enqueue hand-off race and memory effects between commands are not decided; three defects (unbuffered signal channel, plain read of nextPID, unlocked findContext) found and repaired by fix: commits"),
 })
 
+CLAIMED.update({
+ "C10": dict(
+   text="Structural clauses of device memory management on all paths: a lockset analysis of the allocator (every field access under the embedded mutex; helpers reached only from lock-holding call sites), pairing of every page-table write with the allocator's vAddr mirror plus who-may-write the page table, physical addresses taken only from the device memory state, no container mutated while ranged in the driver packages, page-granular cursor and size arithmetic. Invariants over allocate/free/remap histories are state-machine properties and are not decided.",
+   ref="4/C10", technique="lockset dataflow with call-site propagation (guarded-by), PAIR and who-may-write on SSA, syntactic range-mutation rule, value provenance of cursor arithmetic",
+   note="disjointness of live physical pages over histories, multi-page Free, cross-process mirror collisions and the buddy allocator are not decided; two defects (stale mirror entry on free, mutate-while-ranging in removeFreedBuffers) found and repaired by fix: commits"),
+})
+
 PENDING = {}
 
 NOT_APPLICABLE = {
